@@ -474,4 +474,5 @@ def main():
 
 
 if __name__ == '__main__':
-    main()
+    from .common import run_main
+    run_main(main)
